@@ -33,7 +33,7 @@ type Op struct {
 	Key int           `json:"key,omitempty"` // key index; -1 foreign key
 	T   int           `json:"t,omitempty"`   // target (S, R) or stranger (X)
 	N   int           `json:"n,omitempty"`   // payload size
-	Mod string        `json:"mod,omitempty"` // S: "" | flip | trunc-salt | trunc-tag | badtype | truncaddr | private | loopback | cgnat | cgnat-mapped | ula | domain | empty | raw:<dst>
+	Mod string        `json:"mod,omitempty"` // S: "" | flip | trunc-salt | trunc-tag | badtype | truncaddr | private | loopback | cgnat | cgnat-mapped | ula | broadcast | empty-domain | domain | empty | raw:<dst>
 	D   time.Duration `json:"d,omitempty"`   // A; sub-operations of P: delay before acting
 	Par []Op          `json:"par,omitempty"` // P: operations issued concurrently by separate threads
 	Raw []byte        `json:"raw,omitempty"` // S: the whole authenticated plaintext (address header included)
@@ -311,6 +311,8 @@ func Run(cfg Config, ops []Op, tr *Trace) {
 				dst = "[::ffff:100.100.1.1]:53"
 			case op.Mod == "ula":
 				dst = "[fd00::7]:53"
+			case op.Mod == "broadcast":
+				dst = "255.255.255.255:53"
 			case op.Mod == "domain":
 				dst = "dns.example:53"
 			case op.Mod == "private-domain":
@@ -326,6 +328,9 @@ func Run(cfg Config, ops []Op, tr *Trace) {
 				payload = nil
 			case "empty":
 				hdr, payload = nil, nil
+			case "empty-domain":
+				// a domain name of length zero: resolves to no address at all (the unspecified one)
+				hdr = []byte{3, 0, 0, 53}
 			default:
 				hdr = world.Addr(dst)
 			}
